@@ -160,7 +160,8 @@ def check_programs(ctx, pairs, res, report=True):
     per_class, reasons, flaw_kinds, mism = {}, {}, {}, []
     for job, meta in pairs:
         m = res[job["id"]]
-        o = G.observe(job["prog"])
+        # a third of the strict programs spell their annotations as STRINGS (forward references)
+        o = G.observe(job["prog"], form="S" if job["prog"]["strict"] and job["id"] % 3 == 0 else "U")
         ctx.count()
         ctx.traces()
         if len(job["prog"]["nodes"]) >= 2:
